@@ -11,3 +11,6 @@ func installAuto() {}
 // setClockShift: the library of this binary reads the real time.Now; there
 // is no seam to shift it through.
 func setClockShift(shift int64) int64 { return 0 }
+
+// setMapOrder: map iteration order is the Go runtime's in this binary.
+func setMapOrder(desc bool) bool { return false }
